@@ -112,7 +112,8 @@ Definition requireMem (amt : Z) (c : ctx) : r1 :=
   if atLimit memUsed (mem (hard c)) && live c then RTerm (kill c) (TMem (mem (hard c))) else
   ROk (set_mem c memUsed).
 
-(* ReleaseMem: only accounted when a hard memory limit is set; the counter
+(* ReleaseMem: only accounted when a HARD memory limit is set (RequireMem counts under a soft-only limit too, so
+   there the counter never goes down: open finding C07-soft-only-memory-limit-never-released); the counter
    saturates at zero (it used to panic "Too much mem released": repaired by a
    fix: commit, see known_findings.json C06-release-underflow-crash) *)
 Definition releaseMem (amt : Z) (c : ctx) : r1 :=
@@ -144,7 +145,8 @@ Definition pushCtx (now : Z) (d : ctxdef) (m : ctx) : ctx :=
   let tc := (0 <? cpu hard') || (0 <? cpu soft') || tt in
   let tm := (0 <? mem hard') || (0 <? mem soft') in
   let iso := dIso d || (0 <? ms (dHard d)) || (0 <? cpu (dHard d)) || (0 <? mem (dHard d)) in
-  mkCtx hard' soft' res0 fl Live tc tm tt (stopLevel m) now (nextThr m) iso.
+  (* the CPU counter restarts at 0 and so does the threshold at which the clock is next looked at *)
+  mkCtx hard' soft' res0 fl Live tc tm tt (stopLevel m) now 0 iso.
 
 (* results at manager level *)
 Inductive mres :=
